@@ -50,6 +50,9 @@ SERVER_NAME = "www.example.com"
 CONFIGS = [("client", "1.3", None), ("client", "1.2", None), ("server", "1.3", True), ("server", "1.3", False), ("server", "1.2", True), ("server", "1.2", False)]
 CLOSES = ["notify+tcp", "same+tcp", "tcp", "notify", "same", "none"]
 SIZES = [1, 100, 16384, 16385, 40000]
+# (peer writes, inner-layer writes): one write whose ciphertext exceeds one / two / three 65535-byte reads, alone and followed by a small one
+BIG_WRITES = [([65535], [65535]), ([65536], [65536]), ([70000], [70000]), ([200000], [200000]), ([1], [131070, 1]), ([131070, 1], [1])]
+BIG_WRITES_THOROUGH = [([65514], [65513]), ([65513], [65514]), ([300000, 65535], [300000, 65535]), ([100], [65535, 65535, 65535])]
 
 _PKI: dict = {}
 _PEER_CTX: dict = {}
@@ -332,6 +335,11 @@ def specs(tier):
                 if len(pw) == 3:
                     for cw in ([100], [1, 70000]):
                         out.append(spec(cfg, pw, cw, cuts="records", hold=True, bound=1))
+        # writes around and above the 65535-byte BIO read size, in both directions; with "none"/"tcp" nothing follows the
+        # last write that could flush what the layer left behind
+        for close in ("none", "tcp", "notify+tcp"):
+            for pw, cw in BIG_WRITES + (BIG_WRITES_THOROUGH if thorough else []):
+                out.append(spec(cfg, pw, cw, cuts="records" if sum(pw) < 100000 else (), close=close, hold=True, bound=b1))
         for close in CLOSES:
             for early in early_values(cfg):
                 for cuts in ("records", ()):
@@ -384,7 +392,7 @@ def run(ctx):
     sp = specs(ctx.tier)
     ctx.bounds = {
         "configs": ["%s/TLS%s%s" % (a, b, "" if c is None else "/child-opens" if c else "/already-open") for a, b, c in CONFIGS],
-        "write_sizes": SIZES + [70000], "peer_writes": ctx.pick("1-2 per execution", "1-3 per execution"), "inner_layer_writes": "0-3 per execution",
+        "write_sizes": SIZES + [70000], "large_writes_both_directions": [65535, 65536, 70000, 131070, 200000] + ([65513, 65514, 300000] if ctx.thorough else []), "peer_writes": ctx.pick("1-2 per execution", "1-3 per execution"), "inner_layer_writes": "0-3 per execution",
         "record_sizes": "one SSL write per application write (records <= 16384) or per byte",
         "cuts": ctx.pick("<=1 cut: every offset of records <= 300 bytes, 8 offsets (header, middle, tag, end) of larger ones; 1-byte segmentation of streams <= 200 plaintext bytes",
                          "as quick + <=2 cuts (second cut every 8th offset) over the first records of a two-write stream + 1-byte segmentation of a 16385-byte write"),
